@@ -177,6 +177,36 @@ def synth_samples(ctx, fmt):
         out.append(("synth:audio+lyrics3+id3v1", audio + lyrics3(40) + id3v1_block()))
         out.append(("synth:audio+apev2+lyrics3+id3v1", audio + ape_tag(200, rng) + lyrics3(17) + id3v1_block()))
         out.append(("synth:audio+id3v1", audio + id3v1_block()))
+        # legacy short ID3v1 blocks (year field of 0-3 bytes): 124-127 bytes
+        v1 = id3v1_block()
+        for y in (range(4) if not ctx.quick else [rng.randrange(4), 3]):
+            short = v1[:93] + v1[93:97][:y] + v1[97:]
+            out.append(("synth:audio+short-id3v1[%d]" % len(short), audio + short))
+            if rng.random() < 0.5:
+                out.append(("synth:id3v2+audio+short-id3v1[%d]" % len(short),
+                            b"ID3\x04\x00\x00\x00\x00\x00\x0b" + b"TIT2\x00\x00\x00\x02\x00\x00\x00a" + audio + short))
+    if fmt.kind == "FLAC":
+        base = F.sample_bytes(ctx.repo, fmt.samples[0])
+        # a second / third VORBIS_COMMENT block (mutagen issue #377 layout): vendor + one comment each
+        def vc_block(text, last=False):
+            body = (4).to_bytes(4, "little") + b"test" + (1).to_bytes(4, "little") + len(text).to_bytes(4, "little") + text
+            return bytes([4 | (0x80 if last else 0)]) + len(body).to_bytes(3, "big") + body
+        pos = 4; blocks = []
+        while True:
+            h = base[pos]; size = int.from_bytes(base[pos + 1:pos + 4], "big")
+            blocks.append((h & 0x7F, base[pos:pos + 4 + size])); pos += 4 + size
+            if h & 0x80:
+                break
+        audio = base[pos:]
+        for extra in (1, 2):
+            out_blocks = []
+            for code, raw in blocks:
+                out_blocks.append(bytes([raw[0] & 0x7F]) + raw[1:])
+                if code == 4:
+                    for i in range(extra):
+                        out_blocks.append(vc_block(b"ARTIST=SECOND-BLOCK-VALUE-%d" % i))
+            out_blocks[-1] = bytes([out_blocks[-1][0] | 0x80]) + out_blocks[-1][1:]
+            out.append(("synth:flac+%d-extra-comment-blocks" % extra, b"fLaC" + b"".join(out_blocks) + audio))
     if fmt.kind == "MP4":
         try:
             from props import c10
@@ -246,6 +276,12 @@ def run_histories(ctx, checks, rule):
                 continue
             for h in range(nhist):
                 ops = gen_history(rng, fmt, hlen)
+                if "padding" in checks and h == 0 and fmt.padding:
+                    # sequences of saves on the SAME object (no reload, no fresh object): what the callback is offered must
+                    # track the file as it is now, not as it was when the object was loaded
+                    ops = [("set", 0, TEXTS[5]), ("save", ("const", 600), False), ("set", 0, TEXTS[2]), ("save", ("keep",), False),
+                           ("set", 1, TEXTS[4]), ("save", ("keep",), False), ("set", 0, TEXTS[6]), ("save", ("const", 0), False),
+                           ("set", 0, TEXTS[0]), ("save", ("keep",), False), ("save", ("keep",), False)]
                 name = "h" + (fmt.exts[0] if fmt.exts else "")
                 try:
                     sess = Session(fmt, data, name)
@@ -315,6 +351,18 @@ def run_histories(ctx, checks, rule):
                             ans = rec.rule[1] if rec.rule[0] == "const" else max(offered, 0)
                             cap = (1 << 24) - 1 if fmt.kind == "FLAC" else None
                             eff = min(ans, cap) if cap else ans
+                            if fmt.kind.startswith("Ogg") and "comment_packet_len" in w.book and "comment_packet_len" in wprev.book \
+                                    and wprev.tagged:
+                                # the packet written = new content + answered padding; the padding offered must be the space
+                                # the old packet leaves once the new content is in it (independent of how pages are cut)
+                                new_content = w.book["comment_packet_len"] - eff
+                                expect_offered = wprev.book["comment_packet_len"] - new_content
+                                ctx.hist["ogg-offered-padding-checked"] += 1
+                                if offered != expect_offered:
+                                    ctx.violation("%s:info.padding-wrong" % fmt.kind,
+                                                  "the callback was offered padding=%d; the old comment packet has %d bytes and the new "
+                                                  "content %d, so %d remain" % (offered, wprev.book["comment_packet_len"], new_content,
+                                                                                expect_offered), case)
                             if w.padding is not None and fmt.kind not in ("AIFF", "WAVE", "DSDIFF") and w.padding != eff:
                                 ctx.violation("%s:padding-not-obeyed" % fmt.kind,
                                               "callback answered %d, file has %d bytes of padding" % (ans, w.padding), case)
@@ -322,6 +370,8 @@ def run_histories(ctx, checks, rule):
                                 ctx.violation("%s:padding-not-obeyed" % fmt.kind,
                                               "callback answered %d, chunk has %d bytes of padding" % (ans, w.padding), case)
                             grow = len(after) - len(before)
+                            # an ID3v1 block that is rewritten (legacy short blocks become 128 bytes) is not padding
+                            grow -= w.book.get("id3v1_len", 0) - wprev.book.get("id3v1_len", 0)
                             expect = eff - offered
                             tol = 1 if fmt.kind in ("AIFF", "WAVE", "DSDIFF") else 0
                             if fmt.kind.startswith("Ogg"):
@@ -330,7 +380,7 @@ def run_histories(ctx, checks, rule):
                                 ctx.violation("%s:info.padding-wrong" % fmt.kind,
                                               "callback was offered padding=%d and answered %d, so the file should change by %d bytes, "
                                               "it changed by %d" % (offered, ans, expect, grow), case)
-                            if rec.rule[0] == "keep" and offered >= 0 and len(after) != len(before):
+                            if rec.rule[0] == "keep" and offered >= 0 and grow != 0:
                                 ctx.violation("%s:keep-not-inplace" % fmt.kind, "returning the offered padding resized the file", case)
                     if "resave" in checks and op[0] == "save":
                         # the property: load the file, save it unmodified (X1), save a second time (X2): X2 == X1 and no tag
@@ -374,6 +424,58 @@ def run_histories(ctx, checks, rule):
                         k6, r6 = timed(lambda: sess.apply(("delete", False)), 20)
                         if k6 == "ok" and sess.data != after:
                             ctx.violation("%s:delete-not-idempotent" % fmt.kind, "deleting again changed the file", case)
+                        # "new tags can be added and saved afterwards" - through the SAME object (no reload in between):
+                        # nothing that was deleted may come back, in memory or in the file
+                        if k6 == "ok":
+                            w_del = walkers.walk(fmt.kind, sess.data)
+                            def retag():
+                                F.put(fmt, sess.obj, 1, "retagged after delete")
+                                sess.apply(("save", ("none",), False))
+                                mem = F.snapshot(fmt, sess.obj)
+                                data_now = sess.data
+                                fresh = fmt.cls(F.NamedBytesIO(data_now, name))
+                                # the same edit through an object freshly loaded from the deleted file
+                                f2 = F.NamedBytesIO(after, name)
+                                other = fmt.cls(f2)
+                                F.put(fmt, other, 1, "retagged after delete")
+                                F.save(other, f2)
+                                return mem, F.snapshot(fmt, fresh), data_now, f2.getvalue()
+                            k8, r8 = timed(retag, 20)
+                            if k8 == "ok":
+                                mem, disk, data_now, data_fresh = r8
+                                w8 = walkers.walk(fmt.kind, data_now)
+                                # the tag data in the file (every owned region the walker finds, independent of mutagen's
+                                # reader) must be as large as when the same tag is written by a freshly loaded object, up to what
+                                # is not tag content (FLAC/Ogg vendor string, position of the block)
+                                w_fresh = walkers.walk(fmt.kind, data_fresh)
+                                if fmt.kind == "FLAC" and w8.book.get("vc_blocks") != w_fresh.book.get("vc_blocks"):
+                                    ctx.violation("FLAC:retag-after-delete:stale-comment-block",
+                                                  "after delete and a new save through the same object the file has %r Vorbis comment "
+                                                  "blocks (a freshly loaded object writes %r): a deleted block came back"
+                                                  % (w8.book.get("vc_blocks"), w_fresh.book.get("vc_blocks")), case)
+                                elif fmt.family != "vorbis" and abs(len(w8.tag_bytes) - len(w_fresh.tag_bytes)) > 64 and \
+                                        not fmt.kind.startswith("Ogg"):
+                                    ctx.violation("%s:retag-after-delete:stale-state" % fmt.kind,
+                                                  "after delete, the same object writes %d bytes of tag data, a freshly loaded one %d for "
+                                                  "the same new tag" % (len(w8.tag_bytes), len(w_fresh.tag_bytes)), case)
+                                w8 = walkers.walk(fmt.kind, data_now)
+                                if mem != disk or disk is None or len(disk) != 1:
+                                    ctx.violation("%s:retag-after-delete:tags-differ" % fmt.kind,
+                                                  "delete, set one value, save (same object): reload shows %r, the object holds %r"
+                                                  % (sorted(disk or {})[:6], sorted(mem or {})[:6]), case)
+                                if marker_present(data_now):
+                                    ctx.violation("%s:retag-after-delete:old-bytes-back" % fmt.kind,
+                                                  "bytes of a value removed by delete are in the file again after the next save", case)
+                                if foreign_key(w8) != foreign_key(w_del):
+                                    ctx.violation("%s:retag-after-delete:foreign-changed" % fmt.kind, describe_foreign_diff(w_del, w8), case)
+                                if w8.errors:
+                                    ctx.violation("%s:retag-after-delete:malformed" % fmt.kind, "; ".join(w8.errors[:3]), case)
+                            elif k8 == "exc" and not isinstance(r8, MutagenError):
+                                ctx.violation("%s:retag-after-delete:raises-%s" % (fmt.kind, type(r8).__name__), str(r8)[:120], case)
+                            ctx.hist["retag-after-delete"] += 1
+                            # back to the deleted state for the rest of the history
+                            sess.fobj = F.NamedBytesIO(after, name)
+                            sess.reload()
                         # saving the (now empty) tags and deleting once more must again leave no trace
                         def save_delete():
                             sess.apply(("save", ("none",), False))
